@@ -13,7 +13,11 @@ FewRej == Cardinality({i \in DOMAIN hist : hist[i].act.res = "exc"}) <= MaxRej
 Bound == TLCGet("level") <= Depth
 \* a behaviour also ends at a "collide" step (nothing specific can be predicted afterwards)
 Ended == vAct.res = "collide"
-Emit == ((TLCGet("level") = Depth + 1 \/ Ended) /\ FewRej) => PrintT(ToJson([lang |-> EnvOr("VERIF_LANG", "LTiny"), hist |-> hist]))
+\* C06 slice: assets are created first (NAssets of them), then constructions are attempted
+NAssets == atoi(EnvOr("VERIF_NASSETS", "2"))
+BuildFirst == \A i \in DOMAIN hist : (i <= NAssets) = (hist[i].act.op = "AddAsset")
+EmitOK == IF EnvOr("VERIF_BUILDFIRST", "0") = "1" THEN BuildFirst ELSE TRUE
+Emit == ((TLCGet("level") = Depth + 1 \/ Ended) /\ FewRej /\ EmitOK) => PrintT(ToJson([lang |-> EnvOr("VERIF_LANG", "LTiny"), hist |-> hist]))
 StopAtEnd == ~Ended
 FewRejections == FewRej
 =============================================================================
